@@ -119,7 +119,7 @@ def lookupProg : List GS := [
   .assign true [.id ("obj".toList)] [.call (.sel (.call (.sel (.call (.sel (.id ("r".toList)) ("SrcPkg".toList)) [] false) ("Scope".toList)) [] false) ("Lookup".toList)) [.id ("name".toList)] false],
   .ifs [] (.bin ("==".toList) (.id ("obj".toList)) (.id ("nil".toList))) [
     .ret [.id ("nil".toList), .id ("nil".toList), .call (.sel (.id ("fmt".toList)) ("Errorf".toList)) [.str ("interface not found: %s".toList), .id ("name".toList)] false]] [],
-  .ifs [] (.un ("!".toList) (.call (.sel (.id ("types".toList)) ("IsInterface".toList)) [.call (.sel (.id ("obj".toList)) ("Type".toList)) [] false] false)) [
+  .ifs [.assign true [.id ("_".toList), .id ("ok".toList)] [.assert (.id ("obj".toList)) ("*types.TypeName".toList)]] (.bin ("||".toList) (.un ("!".toList) (.id ("ok".toList))) (.un ("!".toList) (.call (.sel (.id ("types".toList)) ("IsInterface".toList)) [.call (.sel (.id ("obj".toList)) ("Type".toList)) [] false] false))) [
     .ret [.id ("nil".toList), .id ("nil".toList), .call (.sel (.id ("fmt".toList)) ("Errorf".toList)) [.str ("%s (%s) is not an interface".toList), .id ("name".toList), .call (.sel (.id ("obj".toList)) ("Type".toList)) [] false] false]] [],
   .varDecl ("tparams".toList) ("*types.TypeParamList".toList) [],
   .assign true [.id ("named".toList), .id ("ok".toList)] [.assert (.call (.sel (.id ("obj".toList)) ("Type".toList)) [] false) ("*types.Named".toList)],
